@@ -101,6 +101,26 @@ where
             m2[i][pos] ^= 1 << (splitmix(&mut st) % 8);
         }
         cx.expect_reject("msg-byte-change", v(&m2, hdr, pk), || format!("message {}", i))?;
+        // where inside the message the change sits: first / last octet, one octet shorter / longer (a mapping that
+        // reads only part of a long message, or a length that is not bound, shows here); at the first, the last
+        // and one random position of the vector
+        if msgs[i].len() >= 2 && (i == 0 || i == l - 1 || i == (c.mut_seed as usize) % l) {
+            let n = msgs[i].len();
+            for (tag, f) in [
+                ("last-octet", Box::new(|m: &mut Vec<u8>| m[n - 1] ^= 0x01) as Box<dyn Fn(&mut Vec<u8>)>),
+                ("first-octet", Box::new(|m: &mut Vec<u8>| m[0] ^= 0x80)),
+                ("octet-before-last", Box::new(|m: &mut Vec<u8>| m[n - 2] ^= 0x10)),
+                ("one-octet-shorter", Box::new(|m: &mut Vec<u8>| {
+                    m.pop();
+                })),
+                ("one-zero-octet-longer", Box::new(|m: &mut Vec<u8>| m.push(0))),
+                ("leading-zero-octet-added", Box::new(|m: &mut Vec<u8>| m.insert(0, 0))),
+            ] {
+                let mut m4 = msgs.clone();
+                f(&mut m4[i]);
+                cx.expect_reject("msg-byte-change", v(&m4, hdr, pk), || format!("message {} ({} octets): {}", i, n, tag))?;
+            }
+        }
         // delete
         let mut m3 = msgs.clone();
         m3.remove(i);
@@ -174,6 +194,15 @@ where
             let p = (splitmix(&mut st) as usize) % b.len();
             b[p] ^= 1 << (splitmix(&mut st) % 8);
             h_edits.push(("bit-flip", Some(b)));
+            let mut b2 = hb.clone();
+            *b2.last_mut().unwrap() ^= 1;
+            h_edits.push(("last-octet", Some(b2)));
+            let mut b3 = hb.clone();
+            b3[0] ^= 0x80;
+            h_edits.push(("first-octet", Some(b3)));
+            let mut b4 = hb.clone();
+            b4.insert(0, 0);
+            h_edits.push(("leading-zero-octet-added", Some(b4)));
             let mut d = hb.clone();
             d.pop();
             h_edits.push(("drop-last", Some(d)));
@@ -355,6 +384,28 @@ fn fixed_cases(seed: u64) -> Vec<Case> {
             });
         }
     }
+    // long data: messages and headers of 300 octets up to 1 MiB, with the catalogue's first / last-octet,
+    // shorter / longer edits
+    for (k, (mlens, hlen)) in [
+        (vec![5usize, 65537, 32], 0usize),
+        (vec![1 << 20], 17),
+        (vec![300, 1000], 70000),
+        (vec![4095, 4096, 4097], 65536),
+        (vec![65535, 1, 65536], 1 << 20),
+        (vec![0, 256 * 256 * 3 + 1], 255),
+    ]
+    .into_iter()
+    .enumerate()
+    {
+        out.push(Case {
+            suite: if k % 2 == 0 { SuiteId::Sha256 } else { SuiteId::Shake256 },
+            key: KeySpec { fixture: false, ikm: BSpec { len: 32, class: 0, seed: splitmix(&mut st) as u32 }, key_info: OptBytes::None, key_dst: OptBytes::None },
+            header: if hlen == 0 { OptBytes::None } else { OptBytes::Bytes(BSpec { len: hlen, class: (k % 3) as u8, seed: 7 }) },
+            msgs: MsgVec { items: mlens.into_iter().map(|len| BSpec { len, class: 0, seed: splitmix(&mut st) as u32 }).collect() },
+            mut_seed: splitmix(&mut st) as u32,
+            light: false,
+        });
+    }
     out
 }
 
@@ -411,7 +462,7 @@ pub fn run(ctx: &Ctx, rep: &Report) -> Meta {
     let tier = ctx.tier;
     run_cases(ctx, rep, "mutations", ctx.tier.pick(96, 600), 200, || strat(tier), |c| check(rep, "mutations", c));
     Meta {
-        rule: "honest (suite, key, header, msgs, signature) then the mutation catalogue enumerated per case: message byte change / delete / prefix at every position, \
+        rule: "honest (suite, key, header, msgs, signature) then the mutation catalogue enumerated per case: message byte change (random octet; first / last octet, one octet shorter / longer, leading zero octet for the first, last and one random message) / delete / prefix at every position, long data (messages and headers of 300 octets to 1 MiB), \
                insert (random, empty, neighbour) at every position 0..=L, extension by 1..=3, swap and replace-by-other of every pair with different contents (all pairs for L<=12), \
                header edits as octet strings, pk in {other key, pk+G2, -pk}, every single-bit flip of the 80 signature octets (all 640 for L<=12), cross-suite, cross-interface in both directions (including the degenerate blind signature without commitment and without messages under every spelling of 'nothing', and the header-only plain signature through the blind verifier); \
                the same catalogue under contention in a cold process, re-priming with the honest verification before the spelling / suite / interface families, all pairs swapped for half of the fixed shapes up to L = 33; oracle: every mutated verification (or decoding) returns Err; non-trivial = honest case with >= 5 mutation families executed; evaluations = mutated verifications"
